@@ -1194,8 +1194,37 @@ func twoPools(r *ev.Run, id string) {
 	}
 }
 
+// hintBurst: 40 000 hinted allocations in a row (the returning clients after a restart), hints
+// descending from the top of a 65 536-block pool / 65 536-address range so that "first free"
+// never coincides with the hint: every one is honoured.
+func hintBurst(r *ev.Run, id string) {
+	for _, p := range []Pool{{CIDR: "2001:db8::/48", Page: 64}, {V4: true, Start: "10.0.0.0", End: "10.0.255.255"}} {
+		g := newGeom(p)
+		fam := "ipv6"
+		if p.V4 {
+			fam = "ipv4"
+		}
+		a := newAlloc(p)
+		end := reg.OpBegin(fmt.Sprintf("pool %v: burst of hinted allocations", p))
+		for i := int64(0); i < 40000; i++ {
+			want := g.n - 1 - i
+			h := net.IPNet{IP: g.ipBytes(g.blockBase(want)), Mask: net.CIDRMask(g.page, g.width)}
+			n, err := a.Allocate(h)
+			if err != nil || !n.IP.Equal(h.IP) {
+				if id == "C07" {
+					r.Violate("C07/"+fam+"/hint-not-honoured/burst", fmt.Sprintf("pool %v: hinted allocation number %d of a burst names free block %d (%v) and returned %v, %v", p, i+1, want, h.IP, n, err), map[string]interface{}{"pool": p, "scenario": "40000 hinted allocations in a row, descending from the last block"})
+				}
+				break
+			}
+		}
+		end()
+		r.EvalN("hint-burst/"+fam, 40000)
+	}
+}
+
 // sweeps: linear fills of many pool geometries (C05), hint family at word boundaries (C07).
 func sweeps(r *ev.Run, id string) {
+	hintBurst(r, id)
 	twoPools(r, id)
 	specialRanges(r, id)
 	freeThenHint(r, id)
